@@ -9,3 +9,31 @@ package utils
 //@ func SortSearchResults
 //@   trusted
 //@   modifies results
+
+// ---- explicit sort keys (property C06): missing values last, first differing key decides ----
+// Reflection-based value comparison and the dotted-path lookup are abstracted by uninterpreted
+// functions (their bodies use reflect / interface type switches and are not under contract here).
+//@ spec nestedOk(m map[string]any, path string) bool
+//@ spec nestedVal(m map[string]any, path string) any
+//@ spec cmpAny(a any, b any) int
+
+//@ func AccessNestedProperty
+//@   trusted
+//@   pure
+//@   ensures result1 == nestedOk(data, path) && result0 == nestedVal(data, path)
+
+//@ func CompareAny
+//@   trusted
+//@   pure
+//@   ensures result == cmpAny(a, b)
+
+// outcome of one sort key: 0 = undecided, otherwise the comparator's answer
+//@ spec keyOutcome(a models.SearchResult, b models.SearchResult, s models.SortOption) int = ite(nestedOk(a.DecodedData, s.Property) && !nestedOk(b.DecodedData, s.Property), -1, ite(!nestedOk(a.DecodedData, s.Property) && nestedOk(b.DecodedData, s.Property), 1, ite(!nestedOk(a.DecodedData, s.Property), 0, ite(s.Descending, cmpAny(nestedVal(b.DecodedData, s.Property), nestedVal(a.DecodedData, s.Property)), cmpAny(nestedVal(a.DecodedData, s.Property), nestedVal(b.DecodedData, s.Property))))))
+
+//@ func SortSearchResults$1
+//@   property C06 C17
+//@   pure
+//@   ensures forall(k, 0, len(sortOpts), forall(j, 0, k, keyOutcome(a, b, sortOpts[j]) == 0) && keyOutcome(a, b, sortOpts[k]) != 0 ==> result == keyOutcome(a, b, sortOpts[k]))
+//@   ensures forall(k, 0, len(sortOpts), keyOutcome(a, b, sortOpts[k]) == 0) ==> result == 0
+//@   loop 1 invariant rangeindex >= -1 && rangeindex < len(sortOpts)
+//@   loop 1 invariant forall(j, 0, rangeindex+1, keyOutcome(a, b, sortOpts[j]) == 0)
